@@ -1,4 +1,5 @@
 import LibconfigModel.Step
+import LibconfigModel.ReadFault
 import LibconfigModel.WF
 import LibconfigModel.Locale
 import LibconfigModel.Alloc
@@ -301,6 +302,117 @@ def cppLine (st : State) (w : List String) : State × String :=
     | none => (st, "bad-op")
     | some op => let (st', o) := Cpp.cppStep st op; (st', showCppOut op o)
 -- END C17
+-- BEGIN C03
+/-! driver side of the C03 harness ops (`battery`, `deepnest`, `leakcheck`, `cov`): the same steps
+as `c03_battery` / `c03_deepnest` in harness/drv_api.c, executed on the model -/
+
+def fnvStep (h : UInt64) (b : UInt8) : UInt64 := (h ^^^ b.toUInt64) * 0x100000001b3
+def fnvInit : UInt64 := 0xcbf29ce484222325
+def fnvBytes (b : Bytes) : UInt64 := b.foldl (fun h x => fnvStep h x.toUInt8) fnvInit
+def fnvString (s : String) : UInt64 := s.toUTF8.foldl fnvStep fnvInit
+def hex16 (h : UInt64) : String := hex64 h.toNat
+
+/-- (number of settings, depth) -/
+partial def c03Shape (n : Node) : Nat × Nat :=
+  n.kids.foldl (fun (acc : Nat × Nat) k => let (m, d) := c03Shape k; (acc.1 + m, max acc.2 (d + 1))) (1, 0)
+
+/-- length of the longest setting name -/
+partial def c03MaxName (n : Node) : Nat :=
+  n.kids.foldl (fun acc k => max acc (c03MaxName k)) (match n.name with | some nm => nm.length | none => 0)
+
+/-- the text `deepnest <kind> <levels> <closed>` reads -/
+def deepNestText (kind : String) (levels : Nat) (closed : Bool) : Option Bytes :=
+  let mk (pre opn mid cls post : String) : Bytes :=
+    let rep (t : String) : Bytes := (List.replicate levels (bytesOfString t)).flatten
+    bytesOfString pre ++ rep opn ++ bytesOfString mid ++
+      (if closed then rep cls ++ bytesOfString post else [])
+  match kind with
+  | "list" => some (mk "a=" "(" "" ")" ";")
+  | "group" => some (mk "" "a={" "" "}" "")
+  | "array" => some (mk "a=" "([1,2]," "0" ")" ";")
+  | "mixed" => some (mk "a=(" "{b=(" "" ")}" ");")
+  | _ => none
+
+/-- path components and index path of the chain of first children -/
+partial def c03Spine (n : Node) (comps : List Bytes) (rel : Path) : List Bytes × Path :=
+  match n.kids with
+  | [] => (comps.reverse, rel.reverse)
+  | k :: _ => c03Spine k ((match k.name with | some nm => nm | none => [91, 48, 93]) :: comps) (0 :: rel)
+
+def c03WriteDigest (c : Config) : String :=
+  if (c03Shape c.root).2 ≤ 64 then
+    let b := c.write Generated.FLOAT_BUF_SIZE
+    s!"{b.length}:{hex16 (fnvBytes b)}"
+  else "skip"
+
+def c03Battery (st : State) : State × String :=
+  let c := st.cfg
+  let (n, d) := c03Shape c.root
+  let lookup := if d ≤ 8 && n ≤ 400 && c03MaxName c.root ≤ 200 then
+      (if lookupAllFrom 64 c.root then "ok" else "FAIL") else "skip"
+  let (comps, rel) := c03Spine c.root [] []
+  let path : Bytes := (comps.intersperse [46]).flatten
+  let spine := if path.isEmpty || lookupFrom c.root path == some rel then "ok" else "FAIL"
+  let head := s!"battery d={d} n={n} dump={hex16 (fnvString (dumpCfg c))} wf={if c.wfb then "ok" else "FAIL"} " ++
+    s!"lookup={lookup} spine={spine} w1={c03WriteDigest c}"
+  let flagOf (o : Out) : Int := match o.res with | .flag true => 1 | .flag false => 0 | _ => -1
+  let (st, r1) := if st.cfg.root.kids.length > 0 then
+      let (s', o) := step st (.removeElem [] 0); (s', flagOf o) else (st, -1)
+  let (st, r2) := if st.cfg.root.kids.length > 0 then
+      let (s', o) := step st (.removeElem [] (st.cfg.root.kids.length - 1)); (s', flagOf o) else (st, -1)
+  let addSet (st : State) (name : String) (ty : Int) (setOp : Path → Op) : State × Int :=
+    match step st (.add [] (some (bytesOfString name)) ty) with
+    | (s', { res := .ptr (some p), .. }) => let (s'', o) := step s' (setOp p); (s'', flagOf o)
+    | (s', _) => (s', -1)
+  let (st, a1) := addSet st "zz_c03" 2 (fun p => .setInt p 42)
+  let (st, a2) := addSet st "zz_c03s" 5 (fun p => .setString p (some (bytesOfString "battery \"q\"\n")))
+  let w2 := c03WriteDigest st.cfg
+  let get : String := match clookupVal .int st.cfg (bytesOfString "zz_c03") with
+    | some (.int v) => toString v
+    | some .unspec => "unspec"
+    | _ => "-1"
+  let (st, o) := step st (.read (.string (bytesOfString "x = 1; y = ( 1, \"two\", { z = 3.5; } );")))
+  let rr := match o.res with | .readResult .accept => "1" | .readResult _ => "0" | _ => "?"
+  let n2 := (c03Shape st.cfg.root).1
+  let (st, _) := step st .clear
+  (st, head ++ s!" rm={r1},{r2} set={a1},{a2} w2={w2} get={get} reread={rr}:{n2} clear={st.cfg.root.kids.length}")
+
+def c03Line (st : State) (w : List String) : Option (State × String) :=
+  match w with
+  | ["battery"] => some (c03Battery st)
+  | ["leakcheck3"] => some (st, "leakcheck 0")     -- the model has no heap
+  | ["cov"] => some (st, "cov 0")                  -- never compared
+  | ["read_stream_fail", _, d] =>
+    match unhex d with
+    | some d =>
+      let r := readFailingStream st.world st.cfg d readFuel
+      some (st.withCfg r.cfg, s!"0 {showLog r.dtorLog}")
+    | none => some (st, "bad-op")
+  | ["read_file_ioerr", p] =>
+    match unhex p with
+    | some p =>
+      let r := readWithFailingFile st.world st.cfg (.file p) p [] readFuel
+      some (st.withCfg r.cfg, s!"0 {showLog r.dtorLog}")
+    | none => some (st, "bad-op")
+  | ["read_string_ioerr", p, t] =>
+    match unhex p, unhex t with
+    | some p, some t =>
+      let r := readWithFailingFile st.world st.cfg (.string t) p [] readFuel
+      some (st.withCfg r.cfg, s!"0 {showLog r.dtorLog}")
+    | _, _ => some (st, "bad-op")
+  | ["deepnest", kind, levels, closed] =>
+    match levels.toNat?, closed.toNat? with
+    | some levels, some closed =>
+      match deepNestText kind levels (closed != 0) with
+      | some text =>
+        if levels > 100000 then some (st, "bad-op") else
+        let op := Op.read (.string text)
+        let (st', o) := step st op
+        some (st', showOut op o)
+      | none => some (st, "bad-op")
+    | _, _ => some (st, "bad-op")
+  | _ => none
+-- END C03
 
 def stepLine (st : State) (w : List String) : State × String :=
   let c := st.cfg
@@ -316,6 +428,7 @@ def stepLine (st : State) (w : List String) : State × String :=
       | none => (st, "bad-op")
     | none => (st, "bad-op")
   | ["err"] => (st, s!"{c.errType} {hexOpt c.errText} {hexOpt c.errFile} {c.errLine}")
+  | ["errio"] => (st, s!"{c.errType} {hexOpt c.errText} {hexOpt c.errFile} {c.errLine}")   -- compared by the direct oracle only (C03 failing streams)
   | ["loccase", g, t, entry, text] =>
     -- C15: read + write + write_file/read_file round trip under a locale set-up
     match g.toNat?, t.toNat?, unhex text with
@@ -428,6 +541,9 @@ def stepLine (st : State) (w : List String) : State × String :=
     | none => (st, "bad-op")
   -- END C1011
   | _ =>
+    match c03Line st w with      -- C03 ops (block above)
+    | some r => r
+    | none =>
     match parseOp w with
     | none => (st, "bad-op")
     | some op =>
